@@ -54,6 +54,14 @@ def handleSampling : Handler := fun op j =>
       let σ ← asNats sj
       pure (Json.mkObj [("dist", distJson jT (SMC.pgGiven r x σ))])
     | .error _ => pure (Json.mkObj [("dist", distJson jT (SMC.pgStep r x))])
+  | "smc" => some do
+    let dt ← asData (← j.getObjVal? "data")
+    let c ← getCfg j
+    let N ← getNat j "N"
+    let θ ← getRat j "theta"
+    let x ← getT j "tree"
+    if N = 0 then throw "no particles"
+    pure (Json.mkObj [("dist", distJson jT (SMC.smcStep { dt := dt, c := c, N := N, θ := θ } x))])
   | "subtree" => some do
     let dt ← asData (← j.getObjVal? "data")
     let c ← getCfg j
